@@ -33,6 +33,12 @@ ASSUMPTIONS = [
     'instance paths are rewritten to /I before comparing (they contain no colon, so no spelling)',
 ]
 HEADER = 'Require Import V.Lib.PyStr V.Args.Model.\nOpen Scope string_scope.'
+HEADER_V = 'Require Import V.Lib.PyStr V.Args.Model V.Args.ValueModel.\nOpen Scope string_scope.'
+# file parts of the value correspondence (as written: nothing is normalised by the code)
+VFILES = [None, 'o.txt', 'p.txt', 'A', 'missing.txt', 'sub', 'sub/', 'sub/./o.txt', 'sub//o.txt', 'o.txt/', 'sub/.', './o.txt']
+VMETHODS = ['ref', 'copy', 'link', 'output', 'copyout', 'extract']
+STDOUT_OF = {'A': '\n so \n\n', 'AB': '', 'BAB': 'x:y'}   # producers that have an out.stdout (all stages)
+PADDED = ['\n lead\n', 'trail \n\n', '\n', ' ', 'a\r\n', '\tt\n \n']   # contents of <producer>/p.txt (by name index)
 
 NAMES = ['A', 'B', 'AB', 'BA', 'AA', 'BB', 'ABA', 'BAB']
 STAGES = [0, 1, 2]
@@ -187,6 +193,11 @@ class Instance(object):
                     if c is not None:
                         with open(os.path.join(wd, fl), 'w') as f:
                             f.write(c)
+                with open(os.path.join(wd, 'p.txt'), 'w', newline='') as f:
+                    f.write(PADDED[(NAMES.index(n) + st) % len(PADDED)])
+                if n in STDOUT_OF:
+                    with open(os.path.join(wd, 'out.stdout'), 'w') as f:
+                        f.write(STDOUT_OF[n])
                 os.makedirs(os.path.join(wd, 'sub'), exist_ok=True)
                 with open(os.path.join(wd, 'sub', 'o.txt'), 'w') as f:
                     f.write('sub')
@@ -370,6 +381,106 @@ def with_orders(case):
     return out
 
 
+# ------------------------------------------------------------------ values (DataReference.resolve)
+def coq_sref(ident, relid, fil, method, direct, loc):
+    return '(mk_sref %s %s %s %s %s %s)' % (cstr(ident), cstr(relid), common.copt(fil, cstr), cstr(method),
+                                            cbool(direct), cstr(loc))
+
+
+def listing(inst, root):
+    """the file system under `root` as it is (walked after the harness wrote its files), instance path -> /I"""
+    out = []
+    if os.path.isdir(root):
+        for d, _dirs, files in os.walk(root):
+            out.append((inst.canon(d), None))
+            for fn in files:
+                with open(os.path.join(d, fn), newline='') as f:
+                    out.append((inst.canon(os.path.join(d, fn)), f.read()))
+    elif os.path.isfile(root):
+        with open(root) as f:
+            out.append((inst.canon(root), f.read()))
+    return out
+
+
+def coq_fs(lst):
+    return clist(['(%s, %s)' % (cstr(p), 'Dir' if c is None else '(File %s)' % cstr(c)) for p, c in lst])
+
+
+def sref_of(inst, r):
+    """the structured reference + the file system of its producer, from the harness' knowledge of the layout"""
+    store = inst.exp.experimentGraph.rootStorage
+    if r['stage'] is None:
+        ident = relid = 'data/%s' % r['name']
+        root = store.resolvePath(ident)
+        return coq_sref(ident, relid, None, r['method'], True, inst.canon(root)), coq_fs(listing(inst, root))
+    root = store.workingDirectoryForComponent(r['stage'], r['name'])
+    return (coq_sref('stage%d.%s' % (r['stage'], r['name']), r['name'], r['file'], r['method'], False, inst.canon(root)),
+            coq_fs(listing(inst, root)))
+
+
+def value_pool(tier):
+    names = NAMES if tier != 'quick' else ['A', 'AB', 'BAB', 'B']
+    pool = []
+    for st in STAGES:
+        for n in names:
+            for fl in VFILES:
+                for m in VMETHODS:
+                    pool.append({'stage': st, 'name': n, 'file': fl, 'method': m})
+    for n in DATA + ['nope']:
+        for m in VMETHODS:
+            pool.append({'stage': None, 'name': n, 'file': None, 'method': m})
+    return pool
+
+
+def explore_values(ctx, used_refs):
+    """(a) the real DataReference objects (spellings, resolve) against Args.ValueModel on a pool of references;
+    (b) every reference used by the cases of the run: the dref given to the model of resolveArguments is the one
+    ValueModel.to_dref computes from the reference and the file system"""
+    from experiment.model.graph import DataReference
+    inst = Instance([])
+    try:
+        g = inst.exp.experimentGraph
+        terms, meta = [], []
+        for k, r in enumerate(value_pool(ctx.tier)):
+            if r['stage'] is None:
+                obj = DataReference(r_abs(r))
+            elif k % 2:
+                obj = DataReference(r_rel(r), stageIndex=r['stage'])       # declared in the relative spelling
+            else:
+                obj = DataReference(r_abs(r), stageIndex=1)
+            try:
+                o = 'V' + inst.canon(obj.resolve(g))
+            except Exception as e:
+                o = type(e).__name__
+            sr, fs = sref_of(inst, r)
+            direct = obj.isDirectReference(g)
+            if direct != (r['stage'] is None) or obj.fileRef != r['file'] or obj.method != r['method']:
+                ctx.disagree(r, [direct, obj.fileRef, obj.method], [r['stage'] is None, r['file'], r['method']],
+                             'C10 DataReference parts (direct / file part / method) vs the declaration as written')
+            terms.append(cpair(cpair(sr, fs), cpair(cpair(cstr(obj.absoluteReference), cstr(obj.relativeReference)), cstr(o))))
+            meta.append((r, [obj.absoluteReference, obj.relativeReference, o]))
+            ctx.count('value_' + (o[:1] if o.startswith('V') else o))
+        bad = ctx.model_mismatches(HEADER_V, terms, 'check_value', chunk=300, name='values')
+        for k, i in enumerate(bad):
+            m = ctx.model_eval(HEADER_V, 'let c := %s in (s_abs (fst (fst c)), s_rel (fst (fst c)), '
+                                         'outcome (resolve (snd (fst c)) (fst (fst c))))' % terms[i]) if k < 3 else ''
+            ctx.disagree(meta[i][0], meta[i][1], m, 'C10 DataReference spellings / resolve vs Args.ValueModel')
+        ctx.count('value_cases', len(terms))
+        terms, meta = [], []
+        for key in sorted(used_refs):
+            r = used_refs[key]
+            sr, fs = sref_of(inst, r)
+            terms.append(cpair(cpair(sr, fs), coq_ref(r)))
+            meta.append(r)
+        bad = ctx.model_mismatches(HEADER_V, terms, 'check_dref', chunk=300, name='drefs')
+        for i in bad:
+            ctx.disagree(meta[i], coq_ref(meta[i]), 'to_dref', 'C10 reference given to the model of resolveArguments vs '
+                                                               'Args.ValueModel.to_dref (spellings, substitutable, value)')
+        ctx.count('distinct_references_of_the_cases', len(terms))
+    finally:
+        inst.close()
+
+
 # ------------------------------------------------------------------ running
 def explore(ctx, cases, batch=240):
     terms = []
@@ -511,6 +622,11 @@ def run(ctx):
     ctx.count('random_base_cases', nbase)
     ctx.exhaustive = False
     explore(ctx, cases)
+    used = {}
+    for c in cases:
+        for r in c['declared']:
+            used[json.dumps([r['stage'], r['name'], r['file'], r['method']])] = r
+    explore_values(ctx, used)
 
 
 def replay(ctx, path):
